@@ -139,3 +139,9 @@ func Tier() int {
 	load()
 	return replay.Tier
 }
+
+// SpawnDeferred(true): goroutines spawned by the code under test do not run until the harness calls RunPending
+// (operation-granular interleaving). Natively goroutines are real; Pending is 0 and RunPending waits briefly.
+func SpawnDeferred(on bool) {}
+func Pending() int         { return 0 }
+func RunPending(k int) bool { return false }
